@@ -288,8 +288,14 @@ def check_insert_local_changes(u):
     file = u["file"]
     src, msk, o, c = _fn_body(file, u["fn"])
     body = msk[o:c]
-    obligations = ["no-change-arms-return-none-and-book-nothing", "changed-arm-books-exactly-its-own-version", "version-comes-from-peek-next-db-version"]
+    obligations = ["no-change-arms-return-none-and-book-nothing", "changed-arm-books-exactly-its-own-version", "version-comes-from-peek-next-db-version",
+                   "in-memory-bookkeeping-not-advanced-inside-the-open-transaction"]
     failures = []
+    # insert_local_changes runs INSIDE the caller's write transaction (it takes `tx`): installing the snapshot here would advance the
+    # node's own head before COMMIT; a failing COMMIT would then have consumed a version
+    for cm in re.finditer(r"\b(commit_snapshot)\s*\(", body):
+        failures.append(("in-memory-bookkeeping-not-advanced-inside-the-open-transaction", _line(src, o + cm.start()),
+                         "commit_snapshot is called inside insert_local_changes, i.e. before the caller's tx.commit()"))
     m = re.search(r"\bmatch\s+version_info\s*\{", body)
     if not m:
         raise LostAnchor("match version_info not found")
@@ -425,6 +431,34 @@ def check_from_conn(u):
         failures.append(("partials-folded-in-through-insert-partial", _line(src, o + parts[0]), "insert_partial is not fed from __corro_seq_bookkeeping rows"))
     if not gins or not (snap[0] < gins[0] < commit[0]) or "__corro_bookkeeping_gaps" not in text[snap[0]:commit[0]]:
         failures.append(("gap-rows-loaded-into-a-snapshot-that-is-committed", _line(src, o + snap[0]), "gap rows are not inserted into the snapshot between snapshot() and commit_snapshot(snap)"))
+    # ---- persisted columns are bound to the fields they describe: `row.get(i)` must read the i-th column of the SELECT it belongs to
+    obligations += ["partial-row-columns-bound-to-their-fields", "gap-row-columns-bound-to-their-fields"]
+    want = {"__corro_seq_bookkeeping": ("partial-row-columns-bound-to-their-fields",
+                                        [(r"let\s+version\s*=\s*row\.get\((\d+)\)", "db_version"),
+                                         (r"from_iter\(vec!\[\s*row\.get\((\d+)\)\?\s*\.\.=", "start_seq"),
+                                         (r"\.\.=\s*row\.get\((\d+)\)\?\s*\]", "end_seq"),
+                                         (r"last_seq:\s*row\.get\((\d+)\)", "last_seq"),
+                                         (r"\bts:\s*row\.get\((\d+)\)", "ts")]),
+            "__corro_bookkeeping_gaps": ("gap-row-columns-bound-to-their-fields",
+                                         [(r"let\s+start_v\s*=\s*row\.get\((\d+)\)", "start"),
+                                          (r"let\s+end_v\s*=\s*row\.get\((\d+)\)", "end")])}
+    from .lex import iter_string_literals
+    lits = [(a, a + len(t), t) for (a, t) in iter_string_literals(src) if o <= a < c and re.search(r"\bSELECT\b", t)]
+    for i, (a, b, t) in enumerate(lits):
+        nxt = lits[i + 1][0] if i + 1 < len(lits) else c
+        for table, (ob, binds) in want.items():
+            if table not in t:
+                continue
+            mm = re.search(r"SELECT\s+(.*?)\s+FROM", t, re.S)
+            cols = [x.strip() for x in mm.group(1).split(",")]
+            seg = src[b:nxt]
+            for rx, col in binds:
+                bm = re.search(rx, seg)
+                if not bm:
+                    raise LostAnchor("from_conn: binding /%s/ not found after the SELECT on %s" % (rx, table))
+                idx = int(bm.group(1))
+                if idx >= len(cols) or cols[idx] != col:
+                    failures.append((ob, _line(src, b + bm.start()), "reads column #%d (`%s`) of `SELECT %s` where `%s` is meant" % (idx, cols[idx] if idx < len(cols) else "?", ", ".join(cols), col)))
     return obligations, failures, ["%s:%d bv.max = … < insert_partial < snapshot < snap.needed.insert < commit_snapshot" % (file, _line(src, o + maxs[0]))]
 
 
